@@ -138,6 +138,10 @@ func (f *File) isValidAlias(alias string) bool {
 	if IsReservedWord(alias) {
 		return false
 	}
+	// the name C belongs to the cgo pseudo-package
+	if alias == "C" {
+		return false
+	}
 	// the import alias is invalid if it's already been registered
 	for _, v := range f.imports {
 		if alias == v.name {
